@@ -24,7 +24,7 @@ CFG = {'assumptions': ["64*len(words) < 2^31 (Go's int32 positions cannot overfl
         'bitmap.IndexRank64/concurrent': 'IndexRank64 of two large bitmaps from 2..4 goroutines released together (several rounds): sampled entries of the single-caller index + one equal-to-single-caller flag per concurrent call',
         'bitmap.Rank/history': 'several bitmaps with HELD indexes, queried in any order; a word is overwritten IN PLACE and '
                                'the same backing slice is re-indexed (order of the IndexRank64 calls alternating)'},
- 'rule': 'cases = held indexes over ascending sizes; exhaustive sweeps (constant bitmaps of 0..5 words, single/two-bit '
+ 'rule': 'cases = all 2-word bitmaps with words 0..40 and all 3-word bitmaps with words 0..6 indexed consecutively in one session in 4 orders (lexicographic, by 31-polynomial, sum, xor of the words); held indexes over ascending sizes; exhaustive sweeps (constant bitmaps of 0..5 words, single/two-bit '
          'words in every slot x all positions); random bitmaps of 1..40 words from a 10-pattern word mix with positions '
          'biased to 64/128-bit boundaries; large bitmaps (dense / sparse / all-ones, 17..2049 words: positions next to '
          '2^8, 2^10, 2^15, 2^16, 2^17 and next to the word where the running count crosses 2^8, 2^15, 2^16); any int32 '
